@@ -111,6 +111,8 @@ theorem FI_send (N : Nat) (links : List (Nat × List Tgt)) (hwf : TreeWF N links
     have hne : key ≠ srcKey := by intro e; rw [e, hl] at hk; cases hk
     show (gw (aset g.writers srcKey _) key).queue = []
     simp only [gw_aset, hne, if_false]; exact h.wq0 key hk
+  · exact ordAt_dels_single lg' g.next (g.next + 1) (g.next + 2) (by simp [lg', aget_aset]) hrU.1
+      (Nat.lt_succ_self _) (Nat.lt_succ_self _)
 
 theorem key_of_parts (key n w : Nat) (h1 : key / 64 = n) (h2 : key % 64 = w) : key = wkey n w := by
   simp only [wkey]; omega
@@ -293,5 +295,6 @@ theorem FI_write_acc (N : Nat) (links : List (Nat × List Tgt)) (hwf : TreeWF N 
     have hne : key ≠ wkey n w := by intro e; rw [e, hl] at hk; cases hk
     show (gw (aset g.writers (wkey n w) _) key).queue = []
     simp only [gw_aset, hne, if_false]; exact h.wq0 key hk
+  · exact ordAt_dels_single lg' q.id g.next (g.next + 1) (by simp [lg', aget_aset]) hqU.1 hqlt (Nat.lt_succ_self _)
 
 end Uniflow.FlowInv
